@@ -291,11 +291,14 @@ def bmc_query(ts, depth, bad_names, stutter_choice, timeout_s=1500, extra_init=N
             res['params'] = prefix['params'][:hk] + res['params']
             if hit:
                 res['hit'] = (hit[0], hit[1] + hk)
+            # plugin verdicts: those of transactions that existed at the waypoint are fixed by the prefix, the others were
+            # left free for the continuation: its model decides them, ALSO when it chose false (res['init'] lists only
+            # true values, so the prefix's arbitrary choice for a not-yet-existing transaction must not survive)
             init = dict(prefix.get('init', {}))
-            for n, v in res['init'].items():
-                if '.Verdict' in n:
+            for n, v in s0.items():
+                if '.Verdict' in n and (init_state is None or n not in init_state):
                     init[n] = v
-            res['init'] = {n: v for n, v in init.items() if '.Verdict' in n}
+            res['init'] = {n: v for n, v in init.items() if '.Verdict' in n and v}
             res['seed_steps'] = hk
     if prefix is not None:
         res['waypoint_state'] = prefix['hit_state']
